@@ -487,7 +487,11 @@ func (d *Drv) buildTyped(f *FSpec) typed.TFilter {
 			tf.Without(comps(f.Without))
 		}
 	}
-	if len(f.Rels) > 0 {
+	if len(f.Rels) > 1 && d.viaNewCtr%2 == 0 {
+		// "can be called multiple times in chains, or once with multiple arguments"
+		tf.Relations(d.rels(f.Rels[:1], order, d.viaNewCtr%3))
+		tf.Relations(d.rels(f.Rels[1:], order, (d.viaNewCtr+1)%3))
+	} else if len(f.Rels) > 0 {
 		tf.Relations(d.rels(f.Rels, order, d.viaNewCtr%3))
 	}
 	return tf
